@@ -11,7 +11,8 @@ use crate::payload::Tracked;
 use crate::rng::Rng;
 use serde::{Deserialize, Serialize};
 use std::collections::BTreeMap;
-use std::sync::{Arc, Mutex};
+use crate::harness::HLock as Mutex;
+use std::sync::Arc;
 use std::task::{Context, Poll};
 
 #[derive(Clone, Copy, Debug, Serialize, Deserialize, PartialEq, Eq)]
@@ -71,6 +72,9 @@ pub struct Ev {
     pub intact: bool,
     pub setter_invoked_on_reject: bool,
     pub addr: usize,
+    /// SendOp: wake-ups this operation delivered to a waker / wake attempts of it that found no waker registered
+    pub wakes_delivered: u32,
+    pub wake_misses: u32,
 }
 
 #[derive(Default)]
@@ -84,6 +88,8 @@ pub type ChanArc = Arc<Box<dyn ChanDyn>>;
 /// what the scenario body hands back for the oracles
 pub struct UniRunData {
     pub events: Vec<Ev>,
+    /// a producer was still inside a (waiting) send while every stream was parked without a pending wake
+    pub blocked_producer: bool,
     pub stuck_at_quiescence: Vec<u32>,
     pub pending_at_quiescence: u32,
     pub wakes_at_quiescence: u64,
@@ -139,12 +145,14 @@ pub fn producer_thread(ch: ChanArc, shared: Arc<Mutex<Shared>>, t: usize, ops: V
     for (seq, entry) in ops.iter().enumerate() {
         let id = event_id(t, seq);
         let inv = ctx::stamp();
+        let (w0, m0) = ctx::my_wake_counters();
         ctx::op_mark(entry.name());
         let (accepted, intact, invoked) = do_send(&ch, *entry, id);
         ctx::op_mark("");
+        let (w1, m1) = ctx::my_wake_counters();
         let ret = ctx::stamp();
         ctx::trace(|| format!("producer {} {}({:#x}) -> {}", t, entry.name(), id, if accepted { "accepted" } else { "rejected" }));
-        shared.lock().unwrap().events.push(Ev { thread: t, kind: EvKind::SendOp(*entry), id, inv, ret, accepted, ended: false, intact, setter_invoked_on_reject: invoked, addr: 0 });
+        shared.lock().unwrap().events.push(Ev { thread: t, kind: EvKind::SendOp(*entry), id, inv, ret, accepted, ended: false, intact, setter_invoked_on_reject: invoked, addr: 0, wakes_delivered: w1 - w0, wake_misses: m1 - m0 });
         if ctx::aborted() {
             break;
         }
@@ -186,7 +194,7 @@ pub fn driver_thread(mut stream: Box<dyn StreamDyn>, shared: Arc<Mutex<Shared>>,
             Poll::Ready(Some(handle)) => {
                 let (id, intact, addr) = (handle.id(), handle.intact(), handle.addr());
                 ctx::trace(|| format!("driver {} yielded {:#x}", driver, id));
-                shared.lock().unwrap().events.push(Ev { thread: thread_no, kind: EvKind::Poll, id, inv, ret, accepted: true, ended: false, intact, setter_invoked_on_reject: false, addr });
+                shared.lock().unwrap().events.push(Ev { thread: thread_no, kind: EvKind::Poll, id, inv, ret, accepted: true, ended: false, intact, setter_invoked_on_reject: false, addr, wakes_delivered: 0, wake_misses: 0 });
                 held.push(handle);
                 while held.len() > cfg.hold as usize {
                     let h = held.remove(0);
@@ -194,17 +202,17 @@ pub fn driver_thread(mut stream: Box<dyn StreamDyn>, shared: Arc<Mutex<Shared>>,
                     let inv = ctx::stamp();
                     drop(h);
                     let ret = ctx::stamp();
-                    shared.lock().unwrap().events.push(Ev { thread: thread_no, kind: EvKind::Release, id: hid, inv, ret, accepted: true, ended: false, intact: ok, setter_invoked_on_reject: false, addr: 0 });
+                    shared.lock().unwrap().events.push(Ev { thread: thread_no, kind: EvKind::Release, id: hid, inv, ret, accepted: true, ended: false, intact: ok, setter_invoked_on_reject: false, addr: 0, wakes_delivered: 0, wake_misses: 0 });
                 }
                 harness_point();
             }
             Poll::Ready(None) => {
                 ctx::trace(|| format!("driver {} got end-of-stream", driver));
-                shared.lock().unwrap().events.push(Ev { thread: thread_no, kind: EvKind::Poll, id: 0, inv, ret, accepted: false, ended: true, intact: true, setter_invoked_on_reject: false, addr: 0 });
+                shared.lock().unwrap().events.push(Ev { thread: thread_no, kind: EvKind::Poll, id: 0, inv, ret, accepted: false, ended: true, intact: true, setter_invoked_on_reject: false, addr: 0, wakes_delivered: 0, wake_misses: 0 });
                 break;
             }
             Poll::Pending => {
-                shared.lock().unwrap().events.push(Ev { thread: thread_no, kind: EvKind::Poll, id: 0, inv, ret, accepted: false, ended: false, intact: true, setter_invoked_on_reject: false, addr: 0 });
+                shared.lock().unwrap().events.push(Ev { thread: thread_no, kind: EvKind::Poll, id: 0, inv, ret, accepted: false, ended: false, intact: true, setter_invoked_on_reject: false, addr: 0, wakes_delivered: 0, wake_misses: 0 });
                 // release everything held before parking (an executor task that awaits the next item keeps nothing)
                 while !held.is_empty() {
                     let h = held.remove(0);
@@ -212,7 +220,7 @@ pub fn driver_thread(mut stream: Box<dyn StreamDyn>, shared: Arc<Mutex<Shared>>,
                     let inv = ctx::stamp();
                     drop(h);
                     let ret = ctx::stamp();
-                    shared.lock().unwrap().events.push(Ev { thread: thread_no, kind: EvKind::Release, id: hid, inv, ret, accepted: true, ended: false, intact: ok, setter_invoked_on_reject: false, addr: 0 });
+                    shared.lock().unwrap().events.push(Ev { thread: thread_no, kind: EvKind::Release, id: hid, inv, ret, accepted: true, ended: false, intact: ok, setter_invoked_on_reject: false, addr: 0, wakes_delivered: 0, wake_misses: 0 });
                 }
                 let producers_active = shared.lock().unwrap().producers_active > 0;
                 if producers_active && cfg.spurious_poll > 0 && ctx::draw_below(1024) < cfg.spurious_poll as u64 {
@@ -235,7 +243,7 @@ pub fn driver_thread(mut stream: Box<dyn StreamDyn>, shared: Arc<Mutex<Shared>>,
         let inv = ctx::stamp();
         drop(h);
         let ret = ctx::stamp();
-        shared.lock().unwrap().events.push(Ev { thread: thread_no, kind: EvKind::Release, id: hid, inv, ret, accepted: true, ended: false, intact: ok, setter_invoked_on_reject: false, addr: 0 });
+        shared.lock().unwrap().events.push(Ev { thread: thread_no, kind: EvKind::Release, id: hid, inv, ret, accepted: true, ended: false, intact: ok, setter_invoked_on_reject: false, addr: 0, wakes_delivered: 0, wake_misses: 0 });
     }
     drop(stream);
     harness::mark_done(driver);
@@ -256,7 +264,7 @@ pub fn uni_body(p: &UniParams, flush_and_end: bool) -> UniRunData {
         let inv = ctx::stamp();
         let accepted = ch.send(id).accepted();
         let ret = ctx::stamp();
-        shared.lock().unwrap().events.push(Ev { thread: 0, kind: EvKind::SendOp(Entry::Send), id, inv, ret, accepted, ended: false, intact: true, setter_invoked_on_reject: false, addr: 0 });
+        shared.lock().unwrap().events.push(Ev { thread: 0, kind: EvKind::SendOp(Entry::Send), id, inv, ret, accepted, ended: false, intact: true, setter_invoked_on_reject: false, addr: 0, wakes_delivered: 0, wake_misses: 0 });
     }
     let mut drivers = vec![];
     let mut handles = vec![];
@@ -271,16 +279,48 @@ pub fn uni_body(p: &UniParams, flush_and_end: bool) -> UniRunData {
         handles.push(shuttle::thread::spawn(move || driver_thread(stream, shared2, d, thread_no, cfg)));
     }
     let mut prod_handles = vec![];
+    #[allow(clippy::needless_range_loop)]
     for (t, ops) in p.producers.iter().enumerate() {
         let (ch2, shared2, ops2) = (Arc::clone(&ch), Arc::clone(&shared), ops.clone());
         prod_handles.push(shuttle::thread::spawn(move || producer_thread(ch2, shared2, t, ops2)));
     }
-    for h in prod_handles {
-        let _ = h.join();
+    // wait for the producers. A producer that (by documented design: the crossbeam setter-based sends) waits for room
+    // while every stream is parked without a pending wake can never finish: that is a lost wake-up too, and is
+    // detected here instead of spinning to the step cap
+    let mut blocked_producer = false;
+    let mut idle_rounds = 0u64;
+    let (mut steps0, mut events0) = (0u64, 0usize);
+    while shared.lock().unwrap().producers_active > 0 && !ctx::aborted() {
+        if harness::all_quiescent(&drivers) {
+            let (steps_now, events_now) = (ctx::with_ctx(|c| c.steps).unwrap_or(0), shared.lock().unwrap().events.len());
+            if idle_rounds == 0 || events_now != events0 {
+                idle_rounds = 0;
+                steps0 = steps_now;
+                events0 = events_now;
+            }
+            idle_rounds += 1;
+            // somebody other than this thread executed > 1500 scheduling points without completing any operation while
+            // every stream stayed parked: only producers can be running, so they are spinning inside a send
+            if steps_now - steps0 > idle_rounds + 1500 {
+                blocked_producer = true;
+                break;
+            }
+            if idle_rounds > 30_000 {
+                panic!("harness: producers neither finish nor run");
+            }
+        } else {
+            idle_rounds = 0;
+        }
+        harness_yield();
+    }
+    if !blocked_producer {
+        for h in prod_handles.drain(..) {
+            let _ = h.join();
+        }
     }
     // quiescence: every driver finished or parked without a wake token -- nobody is left who could call wake
     harness::wait_quiescent(&drivers);
-    let (stuck, pending, wakes) = {
+    let (stuck, wakes) = {
         let sh = shared.lock().unwrap();
         let mut accepted: BTreeMap<u32, u64> = BTreeMap::new();
         for e in sh.events.iter() {
@@ -298,8 +338,25 @@ pub fn uni_body(p: &UniParams, flush_and_end: bool) -> UniRunData {
         let mut stuck: Vec<(u32, u64)> = accepted.into_iter().collect();
         stuck.sort_by_key(|(_, ret)| *ret);
         let wakes = drivers.iter().map(|d| harness::with_driver(*d, |s| s.wakes.get())).sum();
-        (stuck.into_iter().map(|(id, _)| id).collect::<Vec<u32>>(), ch.pending(), wakes)
+        (stuck.into_iter().map(|(id, _)| id).collect::<Vec<u32>>(), wakes)
     };
+    // (informational only; the verdict above was taken without any scheduling point after the last quiescence check)
+    let pending = ch.pending();
+    if blocked_producer {
+        // let the blocked producer finish: wake the streams by hand until the producers are done
+        let mut rounds = 0;
+        while shared.lock().unwrap().producers_active > 0 && !ctx::aborted() && rounds < 10_000 {
+            for d in drivers.iter() {
+                harness::kick(*d);
+            }
+            harness_yield();
+            rounds += 1;
+        }
+        for h in prod_handles.drain(..) {
+            let _ = h.join();
+        }
+        harness::wait_quiescent(&drivers);
+    }
     if flush_and_end && !ctx::aborted() {
         // harness-side flush: wake every driver until nothing more comes out (so a lost wake-up cannot pose as a lost event)
         loop {
@@ -324,7 +381,7 @@ pub fn uni_body(p: &UniParams, flush_and_end: bool) -> UniRunData {
         let _ = h.join();
     }
     let events = std::mem::take(&mut shared.lock().unwrap().events);
-    UniRunData { events, stuck_at_quiescence: stuck, pending_at_quiescence: pending, wakes_at_quiescence: wakes }
+    UniRunData { events, blocked_producer, stuck_at_quiescence: stuck, pending_at_quiescence: pending, wakes_at_quiescence: wakes }
 }
 
 pub fn entry_of(events: &[Ev], id: u32) -> &'static str {
@@ -589,8 +646,19 @@ impl Scenario for C01 {
 
 pub struct C04Uni;
 
-pub fn c04_key(scn: &str, p_kind: Kind, entry: &str, max_streams: usize, streams: usize, producers: usize) -> String {
-    format!("{}/{}/{}/ms{}s{}/{}/stuck_at_quiescence", scn, p_kind.name(), entry, max_streams, streams, if producers == 1 { "p1" } else { "p2+" })
+/// Key of a "stuck at quiescence" verdict: which channel and entry point, the stream configuration, whether producers
+/// overlapped, whether the stuck event was the only one ever sent (`n1`: a lone event into an empty channel) and *how*
+/// the wake-up got lost: the accepting operation made no wake attempt at all / its attempts found no waker
+/// registered / it did deliver a wake-up and the event is stuck nevertheless.
+pub fn c04_key(scn: &str, p_kind: Kind, entry: &str, max_streams: usize, streams: usize, producers: usize, total_sends: usize, wakes_delivered: u32, wake_misses: u32) -> String {
+    let how = if wakes_delivered == 0 && wake_misses == 0 {
+        "no_wake_attempt"
+    } else if wakes_delivered == 0 {
+        "wake_found_no_waker"
+    } else {
+        "woke_but_stuck"
+    };
+    format!("{}/{}/{}/ms{}s{}/{}/{}/{}", scn, p_kind.name(), entry, max_streams, streams, if producers == 1 { "p1" } else { "p2+" }, if total_sends == 1 { "n1" } else { "n2+" }, how)
 }
 
 impl Scenario for C04Uni {
@@ -617,6 +685,12 @@ impl Scenario for C04Uni {
             }
         }
         p.prefill = p.prefill.min(3);
+        // a lone event into an empty channel (the simplest case, where the unchanged tree has no lost wake-up)
+        if rng.chance(1, 3) {
+            p.producers.truncate(1);
+            p.producers[0].truncate(1);
+            p.prefill = 0;
+        }
         p
     }
     fn sched<'a>(&self, p: &'a UniParams) -> &'a SchedSpec {
@@ -636,10 +710,12 @@ impl Scenario for C04Uni {
             }
             if let Some(last) = data.stuck_at_quiescence.last() {
                 let entry = entry_of(&data.events, *last);
+                let total_sends = p2.prefill as usize + p2.producers.iter().map(|o| o.len()).sum::<usize>();
+                let (wd, wm) = data.events.iter().find(|e| e.id == *last && matches!(e.kind, EvKind::SendOp(_))).map(|e| (e.wakes_delivered, e.wake_misses)).unwrap_or((0, 0));
                 ctx::report(
                     "C04",
                     "stuck_at_quiescence",
-                    c04_key("uni_noflush", p2.kind, entry, p2.max_streams, p2.streams, p2.producers.len()),
+                    c04_key("uni_noflush", p2.kind, entry, p2.max_streams, p2.streams, p2.producers.len(), total_sends, wd, wm),
                     format!(
                         "all producers returned and every driven stream is parked without a pending wake, yet accepted events {:x?} were never yielded (pending_items_count={}, wakes received={}); the last one was accepted through {}",
                         data.stuck_at_quiescence, data.pending_at_quiescence, data.wakes_at_quiescence, entry
